@@ -45,6 +45,9 @@ def gen(rng, tier):
         case["feas"] = rng.random() < 0.4
         rho = rng.choice(RHOS)
         case["rho"] = None if rho is None else fs(rho)
+        if case.get("heur") is not None and rng.random() < 0.5:
+            # the very same QUBO request before the heuristic changes the instance (a memoised answer would be stale afterwards)
+            case["pre"] = list(case.get("pre", [])) + ["same"]
         yield case
 
 
